@@ -492,6 +492,18 @@ pub fn run_seq(trace: &Trace, skip: &BTreeSet<usize>, opts: &SeqOpts) -> SeqOutc
             }
         }
 
+        // C12 (applied order, sync cache): at a quiescent point the residents sit in the
+        // access-order deque in the order of their last applied use
+        if opts.oracles && !relaxed && !unsync && quiescent {
+            let (n, bad) = crate::hooks::check_applied_order(&shared, &snap);
+            if n > 0 {
+                rep.flag("c12_applied_order_pairs", n);
+            }
+            if let Some(msg) = bad {
+                rep.viol("C12.applied-order", format!("after {}: {}", op.name(), msg), i, None);
+            }
+        }
+
         // C08 structural walker
         if !relaxed {
             for e in &snap.errors {
